@@ -179,7 +179,24 @@ LEX_BAD = ["", " ", ".", "e5", "1e", "1e+", "--1", "+-1", "+ 1", "1 2", "1_", "_
 LEX_NONFIN = ["inf", "INF", "Inf", "infinity", "Infinity", "iNfInItY", "nan", "NaN", "NAN"]
 
 
+
+def _exp_ok(t):
+    """the model computes the exact value of a literal: exponents of more than 4 digits are kept out of the generated tokens
+    (Python answers inf / 0.0 at once, 10^(10^20) cannot be written down)"""
+    import unicodedata
+    f = "".join(str(unicodedata.decimal(ch)) if (ch.isdigit() and unicodedata.category(ch) == "Nd") else ch for ch in t).replace("_", "")
+    return re.search(r"[eE][+-]?[0-9]{5,}", f) is None
+
+
 def gen_lex_tok(rng):
+    for _ in range(50):
+        t = _gen_lex_tok(rng)
+        if _exp_ok(t):
+            return t
+    return "1e5"
+
+
+def _gen_lex_tok(rng):
     r = rng.random()
     if r < 0.45:
         base = rng.choice(LEX_BASE + [str(rng.randint(-10 ** 6, 10 ** 6)), f"{rng.randint(-5000, 400000)}.{rng.randint(0, 999):03d}",
@@ -827,7 +844,8 @@ def valid(case):
         if cl == "lex":
             return (isinstance(case["toks"], list) and 1 <= len(case["toks"]) <= 64
                     and all(isinstance(t, str) and len(t) <= 400 and "\n" not in t and "\r" not in t and "," not in t and ":" not in t
-                            and all(ord(ch) <= 0xFFFF and not (0xD800 <= ord(ch) <= 0xDFFF) for ch in t) for t in case["toks"]))
+                            and all(ord(ch) <= 0xFFFF and not (0xD800 <= ord(ch) <= 0xDFFF) for ch in t) and _exp_ok(t)
+                            for t in case["toks"]))
         if cl == "line":
             return isinstance(case["s"], str) and isinstance(case["k"], int) and 1 <= case["k"] <= 18 and _text_ok([case["s"]])
         if cl in ("read", "badtext"):
@@ -946,7 +964,7 @@ def dialect_ok(lines):
 
 def _text_ok(lines):
     for l in lines:
-        if "\n" in l or any(ord(ch) > 0xFFFF for ch in l):
+        if "\n" in l or any(ord(ch) > 0xFFFF for ch in l) or not _exp_ok(l):
             return False
         low = l.lower()
         if "inf" in low or "nan" in low:
